@@ -353,7 +353,8 @@ def judge_real(files, case, ri, rr, m, memo):
             if k in memo and memo[k] != u["values"]:
                 mine.append(("unit-differs-between-renders", "unit %s/%s had other strings in an earlier render" % k))
             memo.setdefault(k, u["values"])
-    if bool(mine) == bool(m["spec_ok_impl"]):
+    # (the Lean specification judges one render; "differs between renders" looks across renders and is the check's alone)
+    if bool([x for x in mine if x[0] != "unit-differs-between-renders"]) == bool(m["spec_ok_impl"]):
         raise HarnessError("Spec.embedOk (%s) and the comparison in the check (%s) disagree on %s" % (m["spec_ok_impl"], mine, json.dumps(out)))
     probs += mine
     # what the accessors returned / what the page shows
